@@ -772,7 +772,7 @@ Lemma node_step_inv L nd l ann e :
 Proof.
   intros [IM IT IU] He. cbn zeta.
   assert (Hsame : NodeInv L nd l ann) by (split; assumption).
-  destruct e as [me|c mask|c ce|i]; cbn [node_step].
+  destruct e as [me|c|c ce|i]; cbn [node_step].
   - (* an event of the manager loop *)
     cbn [node_env_ok] in He. destruct (is_internal me) eqn:Ei.
     + cbn [fst snd arun env_trace]. exact (conj Logic.I (conj eq_refl Hsame)).
@@ -797,9 +797,9 @@ Proof.
   - (* the accept future of c *)
     destruct (lookup c (accepting (nd_mgr nd))) as [[p b0]|] eqn:Ea.
     2:{ cbn [fst snd arun env_trace]. exact (conj Logic.I (conj eq_refl Hsame)). }
-    assert (Hacc : forall t ns, accept (nd_alive nd) true mask = (Some t, ns) -> gone t = None).
-    { unfold accept. destruct (report_established _ _) as [ns0 ok0]. destruct ok0; intros t ns H; inversion H. reflexivity. }
-    destruct (accept (nd_alive nd) true mask) as [ot ns] eqn:Eacc.
+    assert (Hacc : forall t ns, accept (nd_alive nd) true = (Some t, ns) -> gone t = None).
+    { rewrite accept_spec. intros t ns H. inversion H. reflexivity. }
+    destruct (accept (nd_alive nd) true) as [ot ns] eqn:Eacc.
     set (ok := match ot with Some _ => true | None => false end).
     destruct (step L (nd_mgr nd) (AcceptDone c ok)) as [m1 os] eqn:Es.
     cbn [fst snd arun env_trace nd_mgr nd_tasks].
@@ -932,4 +932,33 @@ Proof.
     destruct (arun_grun L f1 (nd_mgr nd) l ann) as [G1 G2].
     rewrite arun_app. cbn zeta. split; [|split; assumption].
     apply env_trace_app; [exact S1|]. rewrite <- G1, <- G2. exact T1.
+Qed.
+
+(* With the repaired accept no accept future of a node ever fails: the manager's rollback branch
+   (and with it the discarded ConnectionClosed of rollback_silent_refuted) is never taken. *)
+Lemma node_step_no_rollback L nd e c ok :
+  In (AcceptDone c ok) (snd (snd (node_step L nd e))) -> ok = true.
+Proof.
+  destruct e as [me|c0|c0 ce|i]; cbn [node_step].
+  - destruct (is_internal me) eqn:Ei; [intros []|].
+    destruct (step L (nd_mgr nd) me) as [m1 os]. cbn [snd]. intros [H|[]]. subst me. discriminate.
+  - destruct (lookup c0 (accepting (nd_mgr nd))) as [[p b0]|]; [|intros []].
+    rewrite accept_spec. destruct (step L (nd_mgr nd) (AcceptDone c0 true)) as [m1 os]. cbn [snd].
+    intros [H|[]]. now inversion H.
+  - destruct (negb (is_loop_event ce)); [intros []|].
+    destruct (find_task c0 (nd_tasks nd)) as [[p t]|]; [|intros []].
+    destruct (cstep t ce) as [t1 ns]. destruct (has_mgr_closed ns).
+    + destruct (step L (nd_mgr nd) (Closed p c0)) as [m1 os]. cbn [snd]. intros [H|[]]. discriminate.
+    + intros [].
+  - intros [].
+Qed.
+
+Lemma node_run_no_rollback L es : forall nd c ok,
+  In (AcceptDone c ok) (snd (snd (node_run L nd es))) -> ok = true.
+Proof.
+  induction es as [|e t IH]; intros nd c ok; cbn [node_run]; [intros []|].
+  pose proof (node_step_no_rollback L nd e c ok) as S.
+  destruct (node_step L nd e) as [n1 [o1 f1]]. specialize (IH n1 c ok).
+  destruct (node_run L n1 t) as [n2 [o2 f2]]. cbn [fst snd] in *.
+  intro H. apply in_app_iff in H. destruct H; auto.
 Qed.
